@@ -21,7 +21,7 @@ def _props(P):
     proc = lambda test, q, th, **kw: P("proc", test, q, th, extra_env={"VERIF_NEEDS_SERVER": "1"}, **kw)
     return {
         "C01": sim("TestC01", (4, 1200, 300), (16, 12000, 3000), also=[equiv("CreatePromise,CreatePromiseAndTask,CompletePromise,ReadPromise,SearchPromises")]),
-        "C02": sim("TestC02", (4, 500, 300), (16, 6000, 3000), also=[equiv("")]),
+        "C02": sim("TestC02", (4, 500, 300), (16, 6000, 3000), regress="TestRegressC02", also=[equiv("")]),
         "C03": sim("TestC03", (4, 1200, 300), (16, 12000, 3000),
                    also=[dict(pkg="proc", test="TestC03b", quick=(200, 300), thorough=(8, 1500, 2400), env={"VERIF_NEEDS_SERVER": "1"})]),
         "C04": sim("TestC04", (4, 1200, 300), (16, 12000, 3000), also=[equiv("CreatePromise,CreatePromiseAndTask,CompletePromise,ReadPromise,SearchPromises")]),
